@@ -1,5 +1,7 @@
 #!/usr/bin/env python3
-"""merge known_findings.d/<id>.json fragments into known_findings.json (single committed file); usage: merge_findings.py C13 [C12 ...]"""
+"""merge known_findings.d/<id>.json fragments into known_findings.json (single committed file); usage: merge_findings.py C13 [C12 ...]
+Fragment findings are ADDED (deduplicated by signature/witness); existing findings of the property are replaced only when the
+fragment says "replace_findings": true. Fixed entries are added (deduplicated by commit)."""
 import json, os, sys
 V = '/verif'
 d = json.load(open(V + '/known_findings.json'))
@@ -8,10 +10,15 @@ for pid in sys.argv[1:]:
     if not os.path.exists(p):
         print('no fragment for', pid); continue
     k = json.load(open(p))
-    d['findings'] = ([f for f in d['findings'] if f['property'] != pid] if k.get('replace_findings', True) and k.get('findings') is not None and (k.get('findings') or k.get('replace_findings_explicit')) else d['findings']) + k.get('findings', [])
-    have = {(f['property'], f['commit']) for f in d['fixed']}
+    if k.get('replace_findings'):
+        d['findings'] = [f for f in d['findings'] if f['property'] != pid]
+    have = {(f['property'], f.get('signature'), f.get('witness')) for f in d['findings']}
+    for f in k.get('findings', []):
+        if (f['property'], f.get('signature'), f.get('witness')) not in have:
+            d['findings'].append(f)
+    havec = {(f['property'], f['commit']) for f in d['fixed']}
     for f in k.get('fixed', []):
-        if (f['property'], f['commit']) not in have:
+        if (f['property'], f['commit']) not in havec:
             f.setdefault('line', 'fixed: property=%s %s %s' % (f['property'], f['commit'], f['what']))
             d['fixed'].append(f)
     os.remove(p)
